@@ -250,13 +250,29 @@ class MetadorMeta:
         """
         return self._objs.keys()
 
+    def _restricted_objs(self) -> Dict[str, StoredMetadata]:
+        """Return object infos fit for handing out (nodes restricted like the owner)."""
+        if not any(self._node.acl.values()):
+            return self._objs
+
+        def wrap(node):
+            ret = self._node._wrap_if_node(node)
+            if self._node.acl[NodeAcl.local_only]:
+                ret.restrict(local_only=True)  # nothing to see above it
+            return ret
+
+        return {
+            name: StoredMetadata(uuid=obj.uuid, schema=obj.schema, node=wrap(obj.node))
+            for name, obj in self._objs.items()
+        }
+
     def values(self) -> ValuesView[StoredMetadata]:
         self._node._guard_acl(NodeAcl.skel_only)
-        return self._objs.values()
+        return self._restricted_objs().values()
 
     def items(self) -> ItemsView[str, StoredMetadata]:
         self._node._guard_acl(NodeAcl.skel_only)
-        return self._objs.items()
+        return self._restricted_objs().items()
 
     # ----
 
